@@ -15,6 +15,12 @@ VERIF = Path(__file__).resolve().parent.parent
 PROC = VERIF / "xv" / "procs" / "token_proc.py"
 
 
+def complete_lines(text):
+    """the lines of a log that is being appended to: a reader can see the beginning of the line being written"""
+    lines = text.split("\n")
+    return lines[:-1]          # (what follows the last newline is either empty or a line not yet complete)
+
+
 class World:
     def __init__(self, total, owner, req):
         self.root = Path(tempfile.mkdtemp(prefix="xvtok-", dir=os.environ.get("XV_SCRATCH_DISK", str(VERIF / ".work"))))
@@ -39,7 +45,7 @@ class World:
         out = []
         rev = {v: k for k, v in self.pids.items()}
         with open(self.log) as fp:
-            for line in fp:
+            for line in complete_lines(fp.read()):
                 if not line.strip():
                     continue
                 r = json.loads(line)
@@ -692,7 +698,7 @@ def full_run(total, procs, gate_order, settle=0.4):
         def events():
             if not log.exists():
                 return []
-            return [json.loads(x) for x in log.read_text().splitlines() if x.strip()]
+            return [json.loads(x) for x in complete_lines(log.read_text()) if x.strip()]
 
         def wait(pred, timeout=60):
             t0 = time.time()
